@@ -379,10 +379,6 @@ type verifTarStream struct {
 }
 
 func (s *verifTarStream) Read(p []byte) (int, error) {
-	if len(s.hdrs) > 0 && s.pos == s.hdrs[0] && verifM.Params["tar_next_sched"] != 0 {
-		s.hdrs = s.hdrs[1:]
-		verifSched("tar.next") // the stream may stall before every header (engine: tar.Reader.Next)
-	}
 	limit := len(s.data)
 	if s.failAt >= 0 && s.failAt*512 < limit {
 		limit = s.failAt * 512
@@ -530,6 +526,12 @@ func engineOverlay(repo string, pkgs []*pkgOverlay) (map[string][]byte, error) {
 	return ov, nil
 }
 
+// nativeInstrumentation: scheduling points of the engine's library models, mirrored in the native build.
+var nativeInstrumentation = []struct{ pkgDir, file, anchor, before string }{
+	// engine: (*archive/tar.Reader).Next is a scheduling point under tar_next_sched (the stream may stall)
+	{"tar", "fs.go", "header, err := archive.Next()", "verifSched(\"tar.next\"); "},
+}
+
 // NativeBuild compiles one test binary per harness package.
 type NativeBuild struct {
 	repo    string
@@ -567,6 +569,26 @@ func buildNative(repo, workDir string, pkgs []*pkgOverlay) *NativeBuild {
 		tst := filepath.Join(workDir, strings.ReplaceAll(p.Dir, "/", "_")+"_replay_test.go")
 		os.WriteFile(tst, []byte(fmt.Sprintf(nativeTestTemplate, p.PkgName)), 0o644)
 		replace[filepath.Join(repo, p.Dir, "zz_verif_replay_test.go")] = tst
+	}
+	// source instrumentation for native replays (overlay only, /repo is not touched): a call to the harness'
+	// scheduling point is inserted where the engine models one inside the library. Regenerated from the
+	// current source on every run; if the anchor line is not found exactly once the point is simply absent
+	// natively (schedules through it are then retried free-running).
+	for _, p := range pkgs {
+		for _, ins := range nativeInstrumentation {
+			if ins.pkgDir != p.Dir {
+				continue
+			}
+			src := filepath.Join(repo, p.Dir, ins.file)
+			b, err := os.ReadFile(src)
+			if err != nil || bytes.Count(b, []byte(ins.anchor)) != 1 {
+				continue
+			}
+			nb := bytes.Replace(b, []byte(ins.anchor), []byte(ins.before+ins.anchor), 1)
+			cp := filepath.Join(workDir, strings.ReplaceAll(p.Dir, "/", "_")+"_instr_"+ins.file)
+			os.WriteFile(cp, nb, 0o644)
+			replace[src] = cp
+		}
 	}
 	ovb, _ := json.Marshal(map[string]interface{}{"Replace": replace})
 	ovFile := filepath.Join(workDir, "overlay.json")
